@@ -37,6 +37,8 @@ WORKLOADS = {
     "event_auto": ("w_event.cpp", ()),
     "pass": ("w_event.cpp", ()),
     "expr": ("w_expr.cpp", ()),
+    "scope_v2": ("w_scope.cpp", ()),
+    "scope_v1": ("w_scope.cpp", ()),
 }
 
 PROPS = {
@@ -200,5 +202,41 @@ PROPS = {
         level_note=('Honest scope: the forwarding clause is a function of the program only; the simulator contributes the generated programs. allocate()/spawn allocator pairing is not yet covered.'),
         real=["just/just_error/just_done, then, upon_error, upon_done, let_value, let_error, let_done, finally, sequence, when_all (2-3), stop_when, unstoppable, via, on, with_query_value, materialize+dematerialize, done_as_optional, let_value_with_stop_source", "single_thread_context/manual_event_loop, inline_scheduler", "inplace_stop_source, inplace_stop_token_adapter, fused_stop_source"],
         stub=["harness leaves, taps and erased any_snd plumbing (kit/expr.hpp)", "kit::sim_stop_source", "pthread layer, heap (usim)"],
+    ),
+    "C08": dict(
+        title="async_scope join completes only after all nested work has finished",
+        batches=[
+            B("w_scope.cpp", "scope_v2", quick=10, thorough=150, oracles=["c08.", "c01."] + RT_LIVE + RT_LIB),
+            B("w_scope.cpp", "scope_v1", quick=8, thorough=120, oracles=["c08.", "c01."] + RT_LIVE + RT_LIB),
+        ],
+        level_text=("Seeded exploration over the real v2 and v1 async_scope: 1-3 worker threads issue 1-10 pieces of work (nest+start, nest+discard, "
+                    "nest+connect+discard-unstarted, spawn_detached, spawn_future awaited / dropped / awaited-then-cancelled, v1 attach) whose nested "
+                    "senders are scripted gates (inline or opened later by an opener thread; value/error/done; honouring stop or not) while 1-2 "
+                    "threads start join() (v1: complete()/cleanup(), optionally a racing request_stop()). Oracles: when a join receiver is entered "
+                    "every started piece of work has delivered its completion; no work starts or completes after a join completion; work nested "
+                    "strictly after the scope was closed never starts and completes with done; discarded nest-senders never start their work; "
+                    "every started join completes exactly once with value (deadlock = lost join); v1 cleanup()/request_stop() is observed by "
+                    "outstanding work; scope destructor assertions (use_count()==0)."),
+        level_note=("Trusted: usim stubs. v0 async_scope is not driven. join receivers use the inline scheduler."),
+        real=["unifex::v2::async_scope (nest, join)", "unifex::v1::async_scope (spawn, detached_spawn, attach, complete, cleanup, request_stop)", "spawn_detached, spawn_future, nest",
+              "v1 async_manual_reset_event", "let_value_with_stop_token, let_value_with, variant_sender, sequence, just_from"],
+        stub=["harness gates (kit/gate.hpp)", "pthread layer, heap (usim)"],
+    ),
+    "C09": dict(
+        title="A future yields its operation's result or done; shared state freed once",
+        batches=[
+            B("w_scope.cpp", "scope_v2", quick=10, thorough=150, oracles=["c09."] + RT_MEM + RT_LIB),
+            B("w_scope.cpp", "scope_v1", quick=8, thorough=120, oracles=["c09."] + RT_MEM + RT_LIB),
+        ],
+        level_text=("Same executions as C08 (scope workloads) with the future oracles: a future awaited with or without a later cancellation, or "
+                    "dropped before/after its operation completes, on another thread than the completer. Oracles: value/error equal to what the "
+                    "spawned gate delivered; done only if the operation was done, never admitted, cancelled before the result was available (a "
+                    "result available before the await started is delivered), or (v1) the scope's stop source fired; a cancelled future's "
+                    "operation observes the stop request; the shared heap state is allocated in the arena: double free, leak at end of run and "
+                    "any library access after it was freed are reported by the runtime (shadow memory)."),
+        level_note=("Trusted: usim stubs. Not yet driven: throwing nest()/connect/allocation during spawn (the strong exception guarantee clause) and "
+                    "the terminate-on-error clause of spawn_detached."),
+        real=["spawn_future (future<>, _spawn_future_op, drop/abandon/complete protocol)", "spawn_detached", "v1/v2 async_scope"],
+        stub=["harness gates", "pthread layer, heap (usim)"],
     ),
 }
